@@ -1213,6 +1213,227 @@ func actsOf(b *behaviour) []map[string]any {
 	return out
 }
 
+// ------------------------------------------------------------------ natural runs (V)
+
+func worldJSON(w world) map[string]any {
+	out := map[string]any{}
+	for k, v := range w {
+		out[k] = float64(v)
+	}
+	return out
+}
+
+// implProj reads the projection of the real database in the shape of the model's Proj.
+func (e *env) implProj() (*projJ, tl.M) {
+	p := &projJ{Lookup: map[string][]any{}}
+	wj := func(h common.Hash) map[string]any {
+		k, ok := e.wkey[h]
+		if !ok {
+			tl.Fatal("database holds a root %x the harness never produced", h)
+		}
+		return worldJSON(e.worlds[k])
+	}
+	d := e.pdb.VerifDisk()
+	p.Disk.Root, p.Disk.ID = wj(d.Root), d.ID
+	layers := []tl.M{}
+	for _, l := range e.pdb.VerifLayers() {
+		if l.Disk {
+			continue
+		}
+		keys, msg := e.modelKeys(l.Accounts, l.Storages)
+		if msg != "" {
+			e.sum.Violate("layer "+e.wkey[l.Root]+": "+msg, tl.M{})
+		}
+		if keys == nil {
+			keys = []string{}
+		}
+		p.Layers = append(p.Layers, layerJ{Root: wj(l.Root), Parent: wj(l.Parent), ID: l.ID, Keys: keys})
+		layers = append(layers, tl.M{"root": wj(l.Root), "parent": wj(l.Parent), "id": l.ID, "keys": keys})
+	}
+	bkeys, msg := e.modelKeys(d.BufferAccounts, d.BufferStorages)
+	if msg != "" {
+		e.sum.Violate("buffer: "+msg, tl.M{})
+	}
+	if bkeys == nil {
+		bkeys = []string{}
+	}
+	p.Buffer.N, p.Buffer.Keys = d.BufferLayers, bkeys
+	p.Frozen.Present, p.Frozen.Done, p.Frozen.N = d.Frozen, d.FrozenDone, d.FrozenLayers
+	p.KV.Pid = rawdb.ReadPersistentStateID(e.disk)
+	flat := world{}
+	for _, k := range e.keys {
+		v, err := e.storedValue(k)
+		if err != nil {
+			e.sum.Violate(fmt.Sprintf("stored value of %s does not decode: %v", k, err), tl.M{})
+		}
+		flat[k] = v
+	}
+	p.KV.Flat = worldJSON(flat)
+	accounts, storages := e.pdb.VerifLookup()
+	chash := crypto.Keccak256Hash(contract.Bytes())
+	lookup := tl.M{}
+	for _, k := range e.keys {
+		var list []common.Hash
+		if isSlot(k) {
+			var sk [64]byte
+			copy(sk[:32], chash[:])
+			copy(sk[32:], crypto.Keccak256(slotOf(k).Bytes()))
+			list = storages[sk]
+		} else {
+			list = accounts[crypto.Keccak256Hash(addrOf(k).Bytes())]
+		}
+		ws := []any{}
+		for _, h := range list {
+			ws = append(ws, wj(h))
+		}
+		p.Lookup[k] = ws
+		lookup[k] = ws
+	}
+	desc := []tl.M{}
+	for a, rs := range e.pdb.VerifDescendants() {
+		roots := []any{}
+		for _, r := range rs {
+			roots = append(roots, wj(r))
+		}
+		desc = append(desc, tl.M{"anc": wj(a), "roots": roots})
+	}
+	st := tl.M{
+		"disk":   tl.M{"root": p.Disk.Root, "id": p.Disk.ID},
+		"layers": layers,
+		"buffer": tl.M{"n": p.Buffer.N, "keys": bkeys},
+		"frozen": tl.M{"present": p.Frozen.Present},
+		"kv":     tl.M{"pid": p.KV.Pid, "flat": p.KV.Flat},
+		"lookup": lookup,
+		"desc":   desc,
+	}
+	return p, st
+}
+
+// runRecord grows random layer trees (forks, repeated roots, rejected calls) on a database
+// that caps by itself (maxDiffLayers in {1,2,3,5,128}) with write buffers of 0 B / 600 B /
+// 256 MiB, commits and caps at random points, and records every call with the projection of
+// the database after it.  Every key is read at every available root after every call.
+func runRecord(path string, ntraces, steps int, seed int64, sum *tl.Summary) {
+	r := tl.Rand(seed)
+	tr := tl.NewTrace(path)
+	defer tr.Close()
+	keys := []string{"a1", "a2", "a3", "s1", "s2"}
+	const maxVal = 3
+	maxdiffs := []int{1, 2, 3, 5, 128}
+	buffers := []int{0, 600, 1 << 28}
+	defer pathdb.VerifSetMaxDiffLayers(pathdb.VerifSetMaxDiffLayers(128))
+	shapes := map[string]bool{}
+	for t := 0; t < ntraces; t++ {
+		e := newEnv(keys, false, sum, newGates())
+		maxdiff := maxdiffs[(t+int(seed))%len(maxdiffs)]
+		n := steps
+		if maxdiff == 128 {
+			n = 3*steps + 140
+		}
+		pathdb.VerifSetMaxDiffLayers(maxdiff)
+		e.pdb.VerifSetBufferLimit(buffers[r.Intn(len(buffers))])
+		tr.Emit(tl.M{"op": "reset", "async": false})
+		head := world{}
+		for _, k := range keys {
+			head[k] = 0
+		}
+		shape := ""
+		for i := 0; i < n && len(sum.Violations) == 0; i++ {
+			live := []world{}
+			liveSet := map[string]bool{}
+			diskRoot := e.pdb.VerifDisk().Root
+			for _, l := range e.pdb.VerifLayers() {
+				w := e.worlds[e.wkey[l.Root]]
+				live = append(live, w)
+				liveSet[w.key(keys)] = true
+			}
+			if !liveSet[head.key(keys)] {
+				head = live[r.Intn(len(live))]
+			}
+			var ev tl.M
+			switch c := r.Intn(100); {
+			case c < 88: // update
+				p := head
+				switch x := r.Intn(20); {
+				case x < 5:
+					p = live[r.Intn(len(live))] // fork
+				case x == 5 && len(e.dead) > 0: // a state that is gone
+					for wk := range e.dead {
+						p = e.worlds[wk]
+						break
+					}
+				}
+				d := world{}
+				if r.Intn(25) != 0 { // else: empty transition
+					for j := 0; j <= r.Intn(2); j++ {
+						k := keys[r.Intn(len(keys))]
+						v := r.Intn(maxVal + 1)
+						if v == p[k] {
+							v = (v + 1) % (maxVal + 1)
+						}
+						d[k] = v
+					}
+				}
+				nw := apply(p, d, keys)
+				res := "ok"
+				switch {
+				case len(d) == 0:
+					res = "cycle"
+				case e.rootOfKnown(nw) == diskRoot:
+					res = "dupdisk"
+				case liveSet[nw.key(keys)]:
+					res = "dup"
+				case !liveSet[p.key(keys)]:
+					res = "orphan"
+				}
+				e.update(map[string]any{"p": worldJSON(p), "d": worldJSON(d), "res": res})
+				if res == "ok" {
+					head = nw
+				}
+				ev = tl.M{"op": "update", "p": worldJSON(p), "d": worldJSON(d), "res": res, "maxdiff": maxdiff}
+				shape += res[:1]
+			default: // Commit or an explicit cap at a random available root
+				w := live[r.Intn(len(live))]
+				nn := 0
+				if r.Intn(2) == 0 {
+					nn = 1 + r.Intn(3)
+				}
+				var err error
+				if nn == 0 {
+					err = e.tdb.Commit(e.rootOf(w), false)
+				} else {
+					err = e.pdb.VerifCap(e.rootOf(w), nn)
+				}
+				ev = tl.M{"op": "cap", "r": worldJSON(w), "n": nn, "ok": err == nil}
+				shape += fmt.Sprintf("C%d", nn)
+			}
+			p, st := e.implProj()
+			ev["st"] = st
+			tr.Emit(ev)
+			e.verifyReads(p, fmt.Sprintf("trace %d call %d", t, i+1))
+			sum.Steps++
+			sum.Count(ev["op"].(string))
+		}
+		e.close()
+		sum.Traces++
+		sum.Evaluations++
+		if !shapes[shape] {
+			shapes[shape] = true
+			sum.Distinct++
+		}
+		if t == 0 {
+			sum.Sample(shape)
+		}
+		if len(sum.Violations) > 0 {
+			break
+		}
+	}
+	sum.Rule = "random layer trees grown through StateDB commits on a self-capping database (maxDiffLayers 1/2/3/5/128, buffers 0 B/600 B/256 MiB, synchronous flush), random Commit/cap calls; distinct = distinct call-result sequences"
+}
+
+// rootOfKnown returns the registered root of a world, or the zero hash.
+func (e *env) rootOfKnown(w world) common.Hash { return e.root[w.key(e.keys)] }
+
 // ------------------------------------------------------------------ regression scenario (fixed defect C16-F1)
 
 // runRegress builds, with the default 128-layer limit and only StateDB commits
@@ -1303,9 +1524,12 @@ func runRegress(sum *tl.Summary) {
 
 
 func main() {
-	mode := flag.String("mode", "replay", "replay|regress")
+	mode := flag.String("mode", "replay", "replay|regress|record")
 	in := flag.String("in", "", "behaviours json")
 	out := flag.String("out", "summary.json", "summary output")
+	trace := flag.String("trace", "trace.ndjson", "output trace (mode record)")
+	ntr := flag.Int("n", 6, "traces (mode record)")
+	steps := flag.Int("steps", 40, "calls per trace (mode record)")
 	flag.BoolVar(&iterMode, "iter", false, "additionally check the flat-state iterators at every available root (C22)")
 	flag.Parse()
 	if v := tl.EnvInt("C16_WAIT_S", 0); v > 0 {
@@ -1319,6 +1543,8 @@ func main() {
 		runReplay(*in, sum)
 	case "regress":
 		runRegress(sum)
+	case "record":
+		runRecord(*trace, *ntr, *steps, seed, sum)
 	default:
 		tl.Fatal("bad mode")
 	}
